@@ -45,6 +45,34 @@ CHECKS = {
              'over seeded stable/drifting/oscillating dynamics of both signs; plus before/after isolation snapshot.',
         note='within-period solves at 1e-12 so solver noise is far below the steady tolerance; lag gain <= 1.2',
         ref='DESIGN.md 5/C15'),
+    'C06': dict(
+        technique='deterministic simulation: seeded histories of cash-flow registrations / exclusions / definitions '
+                  'interleaved over several sectors and models; term-sum ledger reference model checked after every op',
+        text='Reference-model refinement over seeded operation histories on mutable Sector objects that share the '
+             'process-global ID counter and the model-level exclusion list.',
+        note='exclusions apply to later registrations; valuations are independent awkward floats (8 per history)',
+        ref='DESIGN.md 5/C06'),
+    'C12': dict(
+        technique='deterministic simulation: seeded AddTerm / AddTermToEquation / create_equation_from_terms '
+                  'histories incl. list re-use; term-sum reference model under valuations after every op',
+        text='Reference-model refinement over seeded histories on mutable Equation objects and on the caller-owned '
+             'term list (aliasing side effect).',
+        note='leading expressions restricted to arithmetic; tolerance 1e-12 relative to the sum of |terms|',
+        ref='DESIGN.md 5/C12'),
+    'C16': dict(
+        technique='deterministic simulation: seeded read / render / caller-mutation histories on solved and hand-filled '
+                  'result holders; immutable result-store reference model after every op',
+        text='Op-by-op comparison of every return value and of the stored results against an immutable reference copy '
+             'and the documented slicing rule.',
+        note='documented slice rule as stated in the property',
+        ref='DESIGN.md 5/C16'),
+    'C19': dict(
+        technique='deterministic simulation: renders of holders left by successful / aborted solves and AppendValue '
+                  'histories; timeseries log captured by the fault-injecting SimFS; table reference model',
+        text='Table model checked on what solves (incl. fault-aborted ones) leave behind and on the bytes the file seam '
+             'acknowledged under injected open/write/short-write/close failures.',
+        note='cell precision per format string; sorted() order for "alphabetically"',
+        ref='DESIGN.md 5/C19'),
 }
 
 NOT_APPLICABLE = [
